@@ -505,7 +505,8 @@ def _exec_faults(plan, sb, rtflite, conv_mod, arg) -> dict:
                 if docs[di] is None:
                     continue
                 ops.append({"kind": kind, "doc": di, "recovery": True, "fault": {"kind": "none"},
-                            "target": {"name": f"recovery{di}{SUFFIX[kind]}", "missing_parents": 0, "style": "str",
+                            "target": {"name": f"recovery{di}{SUFFIX[kind]}", "missing_parents": 0,
+                                       "style": "relative" if kind in ("write_rtf", "write_html") else "str",
                                        "pre": "absent"},
                             "converter": "default" if kind != "write_rtf" else "none", "res": 1, "stray": False})
                 break
